@@ -62,12 +62,15 @@ def run_case(case):
     import bct.algorithms.reference as ref
     r = case['routine']; W = represent(case['W'], case.get('rep')); n = len(W)
     und = r in UND
-    rec = Recorder(case['seed'])
+    replay = case.get('replay', True)
+    # large cases beyond the reach of the model replay are judged by the predicates only: plain seed, nothing recorded
+    rec = Recorder(case['seed']) if replay else case['seed']
     W_before = W.copy()
     olog = []
     res = {'fails': [], 'oracle': olog}
     real_np = ref.np
-    ref.np = NPProxy(real_np, olog)
+    if replay:
+        ref.np = NPProxy(real_np, olog)
     try:
         if r in NULL:
             st, out = call(getattr(bct, r), W, case['itr'], case['freq'], seed=rec, t=case.get('t', 5.0), retry=10)
@@ -75,7 +78,7 @@ def run_case(case):
             st, out = call(getattr(bct, r), W, case['itr'], seed=rec, t=case.get('t', 5.0), retry=10)
     finally:
         ref.np = real_np
-    res['status'] = st; res['draws'] = rec.flat()
+    res['status'] = st; res['draws'] = rec.flat() if replay else []
     if not np.array_equal(W, W_before):
         res['fails'].append(('input-modified', {}))
     if st == 'exc':
@@ -295,6 +298,39 @@ def gen_cases(rs, tier):
     return cases
 
 
+# sizes crossing thresholds an implementer might pick for a fast path (table sizes, > 64 / 500 / 1000 weights per sign, n**4 > 2**31)
+SIZES_SMALL = (12, 16, 17, 32, 33)
+SIZES_MID = (48, 64, 65, 100, 128, 129)
+SIZES_BIG = (216, 217, 218, 219, 220, 256, 257)
+REPLAY_MAX_N = {'quick': 33, 'thorough': 48}
+
+
+def size_cases(rs, tier):
+    """size axis: every routine at sizes around 12, 16/17, 32/33, 48, 64/65, 100, 128/129, 216-220, 256/257, dense enough to have
+    > 64, > 500, > 1000 weights of each sign; judged by the predicates at any size, replayed by the model up to REPLAY_MAX_N"""
+    big = tier == 'thorough'
+    cases = []
+    for r in ROUTINES:
+        und = r in UND
+        sizes = list(SIZES_SMALL) + list(SIZES_MID if (big or r in NULL) else rs.choice(SIZES_MID, 4, replace=False))
+        sizes += list(SIZES_BIG) if big else [int(rs.choice(SIZES_BIG))] if r not in NULL or rs.rand() < .5 else []
+        for n in sizes:
+            n = int(n)
+            for _ in range(2 if (n <= 129 and (big or (r in NULL and n >= 33))) else 1):
+                dens = float(rs.choice([.5, .9, 1.0])); neg = float(rs.choice([.3, .5]))
+                W = signed_graph(rs, n, dens, neg, und)
+                c = {'routine': r, 'W': W.tolist(), 'seed': int(rs.randint(2 ** 31)), 'size': True, 't': 90.0,
+                     'replay': n <= REPLAY_MAX_N[tier], 'itr': 1}
+                if r in NULL:
+                    c['itr'] = int(rs.choice([0, 1])) if n > 65 else int(rs.choice([0, 1, 2]))
+                    # periods 1, 2, 3, 5, 10 and the single-argsort path; period 1 (one round per weight) only where it stays cheap
+                    c['freq'] = [.1, .2, .3, .5, 0, 1][int(rs.randint(6 if n <= 65 else 5))]
+                if rs.rand() < .3:
+                    c['rep'] = {'order': ORDERS[int(rs.randint(len(ORDERS)))], 'dtype': DTYPES[int(rs.choice([0, 1, 2]))]}
+                cases.append(c)
+    return cases
+
+
 def explicit_sequences(rs, tier):
     """short hand-written call sequences run in one fresh process each: sibling routines on equal-size inputs in mixed
     order, an option away from its default followed by the default"""
@@ -384,6 +420,8 @@ def main():
                       'bin_swaps in {0,1,2,5}, wei_freq in {0,.1,.2,.25,.3,.4,.5,2/3,.7,1} (1/wei_freq non-integer and exactly half-way included), '
                       'all-positive (binary stage skipped) / all-negative / full-with-one-negative edge cases and an asymmetric malformed stream; '
                       'a representation axis (memory order C/F/transposed view/strided slice x dtype float64/int64/float32) on 40 % of the cases; '
+                      'a size axis for all four routines: n around 12, 16/17, 32/33, 48, 64/65, 100, 128/129, 216-220, 256/257 with > 64 / 500 / 1000 weights per sign '
+                      '(model replay up to n = 33 (48 thorough), the independent predicates alone beyond - counted under size-axis:*); '
                       'non-trivial = distinct case whose output differs from the input')
     ck.assumptions += ['inputs are integer-valued matrices (exact arithmetic in the dealing stage, exact comparison of outputs); 40 % of the cases are handed to bct in another '
                        'representation of the same logical matrix (Fortran order, transposed view, non-contiguous slice; int64 / float32) - the model and the predicates see the logical matrix',
@@ -419,7 +457,12 @@ def main():
                         if isinstance(b.get('detail'), dict) and 'case' in b['detail']]]
     else:
         # history across calls: shuffled batches, one fresh process per batch, plus explicit sequences
-        batches = seqc.make_batches(ck.rs, gen_cases(ck.rs, ck.tier), 25, explicit_sequences(ck.rs, ck.tier))
+        sz = size_cases(ck.rs, ck.tier)
+        sz = [sz[i] for i in ck.rs.permutation(len(sz))]
+        # the (expensive) size cases form small batches of their own - mixed routines, big first - so that they spread over the workers
+        sz.sort(key=lambda c: -len(c['W']))
+        size_batches = [sz[i::max(1, len(sz) // 3)] for i in range(max(1, len(sz) // 3))]
+        batches = seqc.make_batches(ck.rs, gen_cases(ck.rs, ck.tier), 25, size_batches + explicit_sequences(ck.rs, ck.tier))
         probes = gen_probes(ck.rs, ck.tier)
     cases, results, hist = seqc.run_batches(run_case, batches)
     ck.count('batches', len(batches)); ck.count('explicit_sequence_cases', sum(1 for c in cases if c.get('seq')))
@@ -458,6 +501,10 @@ def main():
             for pred, info in r['fails']:
                 if pred in PREDS:
                     ck.violation(rt, pred, {'case': c, 'history': hist[n_], 'output': r.get('X'), 'r': r.get('r'), 'info': info}, cond)
+        if c.get('size'):
+            ck.count('size-axis:n=%d' % len(c['W'])); ck.count('size-axis:%s' % ('model-replay' if c.get('replay', True) else 'predicates-only'))
+        if not c.get('replay', True):
+            continue
         lines.append(lean_line(c, r)); idx.append(n_)
     # a routine that hangs or raises on (almost) every input must not pass silently
     for rt in ROUTINES:
